@@ -255,8 +255,15 @@ def _describe(ctx: Context) -> _Source | Declined:
     expmax: int | None = None
     policy = _Policy.UNBOUNDED
     if isinstance(ctx, (EFloatContext, MPBFloatContext)):
-        maxval = ctx.maxval().as_real()
-        neg_maxval = ctx.maxval(s=True).as_real()
+        try:
+            maxval = ctx.maxval().as_real()
+            neg_maxval = ctx.maxval(s=True).as_real()
+        except ValueError:
+            return Declined('the format states no bound on one side of zero')
+        if maxval.is_zero():
+            return Declined(
+                'a format representing no non-zero value has no position to round at'
+            )
         # an emitted context states one bound and mirrors it, and FPy's context
         # construction has no way to pass the other, so the two must agree
         if neg_maxval != RealFloat(s=True, x=maxval):
